@@ -90,6 +90,31 @@ CHECKS = {
               "(CG / ARPACK); documented memories (Scaling, damped AggScaling, writer counters) excluded"),
         technique="TLA+ version/taint model checked by TLC; replay of emitted call histories against a freshly built network",
         design="9/C03"),
+    "C15": dict(
+        text=("DyadAlg.tla defines every public DyadCarrier operation (construction from vector lists incl. zero dyads and "
+              "unset shape, +, -, unary minus, in-place add/subtract incl. A += A, scalar products from both sides, matrix "
+              "and vector products from both sides, transpose, conj, real, imag, diagonal(k), element / slice / fancy "
+              "indexing, zeroing of rows and columns, contract (trace, dense, batched+sliced, sparse), copy) by dense "
+              "Gaussian-integer matrix algebra over three carrier slots; TLC checks ShapeClosure, TypeSound and Frame (no "
+              "operand but the in-place target changes). All operation sequences to depth 2/3 from five initial "
+              "configurations (real, complex, mixed, zero-dyad, unset-shape) and simulated sequences of depth 8 are replayed "
+              "on real DyadCarrier objects; after every operation todense(), shape and complex-ness of all three slots and "
+              "the returned value are compared exactly, with a 5 s alarm against non-termination."),
+        note=(TLC_BASE + "; an unset-shape carrier counts as the zero matrix of any shape; complex-ness must agree with "
+              "todense() or iscomplex()"),
+        technique="TLA+ dense-algebra model enumerated by TLC; exact replay of operation sequences on DyadCarrier",
+        design="9/C15"),
+    "C13": dict(
+        text=("Grid.tla gives the index formulas of DomainDefinition operationally and C13 declaratively (element and node "
+              "numbering bijective with Cartesian indices, NodeIdx inverse, connectivity = the 2^dim corners in the documented "
+              "local order, per-dof expansion for ndof 1..3, positions = index x size, shape functions non-negative / sum to "
+              "one / Kronecker, reported derivative = exact difference quotient) in exact rationals; TLC checks it for every "
+              "2D grid up to 5x5 (7x7) and 3D grid up to 3x3x3 (4x4x4) and three element-size triples and prints the complete "
+              "tables, which are compared with DomainDefinition's methods (scalar and array arguments), attributes and "
+              "helper arrays. The enumeration is complete within the bounds."),
+        note=TLC_BASE + "; shape functions are evaluated on the 5^dim lattice of the element (they are multi-affine, so this determines them)",
+        technique="TLA+ exact-rational grid model checked by TLC; table comparison with DomainDefinition",
+        design="9/C13"),
 }
 
 
